@@ -7,6 +7,8 @@ package harness
 import (
 	"errors"
 	"fmt"
+	"runtime"
+	"strconv"
 	"strings"
 	"sync"
 	"testing"
@@ -25,6 +27,8 @@ type c10Cmd struct {
 
 type c10Case struct {
 	Cmds []c10Cmd `json:"cmds"`
+	// NoTail: the last command is the last statement of the dialogue (nothing follows it)
+	NoTail bool `json:"no_tail,omitempty"`
 }
 
 type c10Harness struct {
@@ -76,6 +80,10 @@ func (c c10Case) script() string {
 	var b strings.Builder
 	b.WriteString("title: Start\n---\nM0\n")
 	for i := range c.Cmds {
+		if c.NoTail && i == len(c.Cmds)-1 {
+			fmt.Fprintf(&b, "<<if true>>\n    <<k%d w%d %d>>\n<<endif>>\n", i, i, i+10)
+			continue
+		}
 		fmt.Fprintf(&b, "<<k%d w%d %d>>\n<<set $done%d to pn(\"after%d\", %d)>>\nM%d\n", i, i, i+10, i, i, i, i+1)
 	}
 	b.WriteString("===\n")
@@ -297,6 +305,15 @@ func runC10(c c10Case) Verdict {
 				return *v
 			}
 		}
+		if c.NoTail && i == len(c.Cmds)-1 {
+			if kind != "end" {
+				return failf("command %d is the last statement: after its completion the dialogue must end, got %s %q%s", i, kind, text, ctx())
+			}
+			if inv, _ := h.counts(); inv != len(c.Cmds) {
+				return failf("%d handler invocations for %d command statements: %v%s", inv, len(c.Cmds), h.invoked, ctx())
+			}
+			return Verdict{NonTrivial: hasPending(c), Classes: []string{"pending-command-is-last-statement"}}
+		}
 		if kind != "line" || text != fmt.Sprintf("M%d", i+1) {
 			return failf("after command %d the dialogue must resume at the statement after it and reach the line M%d, got %s %q%s", i, i+1, kind, text, ctx())
 		}
@@ -343,6 +360,7 @@ var c10Pending = Register(Prop[c10Case]{
 				Fail:  rapid.IntRange(0, 2).Draw(t, "fail") == 0,
 			})
 		}
+		c.NoTail = rapid.IntRange(0, 3).Draw(t, "notail") == 0
 		return c
 	},
 	Run: runC10,
@@ -360,7 +378,7 @@ func TestC10ScheduleMatrix(t *testing.T) {
 				for polls := 0; polls <= 3; polls++ {
 					for _, fail := range []bool{false, true} {
 						cmd := c10Cmd{Shape: shape, Polls: polls, Fail: fail}
-						for _, c := range []c10Case{{Cmds: []c10Cmd{cmd}}, {Cmds: []c10Cmd{cmd, cmd}}, {Cmds: []c10Cmd{cmd, {Shape: "raw"}}}, {Cmds: []c10Cmd{{Shape: "err", Polls: 1, Fail: true}, cmd}}} {
+						for _, c := range []c10Case{{Cmds: []c10Cmd{cmd}}, {Cmds: []c10Cmd{cmd}, NoTail: true}, {Cmds: []c10Cmd{{Shape: "raw"}, cmd}, NoTail: true}, {Cmds: []c10Cmd{cmd, cmd}}, {Cmds: []c10Cmd{cmd, {Shape: "raw"}}}, {Cmds: []c10Cmd{{Shape: "err", Polls: 1, Fail: true}, cmd}}} {
 							if !yield(c) {
 								return
 							}
@@ -375,14 +393,14 @@ func TestC10ScheduleMatrix(t *testing.T) {
 // <<wait n>>
 
 type c10WaitCase struct {
-	Millis []int `json:"millis"` // durations of successive <<wait>> commands, in milliseconds
+	Micros []int `json:"micros"` // durations of successive <<wait>> commands, in microseconds
 }
 
 func runC10Wait(c c10WaitCase) Verdict {
 	var b strings.Builder
 	b.WriteString("title: Start\n---\nM0\n")
-	for i, ms := range c.Millis {
-		fmt.Fprintf(&b, "<<wait %s>>\nM%d\n", displayNumberCanonical(float64(ms)/1000), i+1)
+	for i, us := range c.Micros {
+		fmt.Fprintf(&b, "<<wait %s>>\nM%d\n", strconv.FormatFloat(float64(us)/1e6, 'f', -1, 64), i+1)
 	}
 	b.WriteString("===\n")
 	dr, err := ysgo.NewDialogueRunner(nil, "abc", strings.NewReader(b.String()))
@@ -393,7 +411,9 @@ func runC10Wait(c c10WaitCase) Verdict {
 		return failf("unexpected first element")
 	}
 	pending := 0
-	for i, ms := range c.Millis {
+	for i, us := range c.Micros {
+		want := time.Duration(us) * time.Microsecond
+		secs := float64(us) / 1e6
 		start := time.Now()
 		var r nextResult
 		var ok bool
@@ -401,7 +421,7 @@ func runC10Wait(c c10WaitCase) Verdict {
 		for {
 			r, ok = timedNext(dr, 10*time.Second)
 			if !ok {
-				return failf("Next blocked during <<wait %v>>", float64(ms)/1000)
+				return failf("Next blocked during <<wait %v>>", secs)
 			}
 			if r.p != nil {
 				return failf("Next panicked during <<wait>>: %v", r.p)
@@ -410,35 +430,193 @@ func runC10Wait(c c10WaitCase) Verdict {
 				break
 			}
 			polls++
-			time.Sleep(500 * time.Microsecond)
+			runtime.Gosched() // tight polling: the completion is observed as early as possible
 			if time.Since(start) > 30*time.Second {
 				return Verdict{Discard: "wait did not complete within 30 s (machine too slow?)"}
 			}
 		}
 		elapsed := time.Since(start)
-		if elapsed < time.Duration(ms)*time.Millisecond {
-			return failf("<<wait %v>> reported completion after %v, earlier than %v after it started", float64(ms)/1000, elapsed, time.Duration(ms)*time.Millisecond)
+		if elapsed < want {
+			return failf("<<wait %v>> reported completion after %v, earlier than %v after it started", secs, elapsed, want)
 		}
 		if r.err != nil || r.el == nil || r.el.Line == nil || r.el.Line.Text != fmt.Sprintf("M%d", i+1) {
-			return failf("after <<wait %v>> expected the line M%d, got %+v / %v", float64(ms)/1000, i+1, r.el, r.err)
+			return failf("after <<wait %v>> expected the line M%d, got %+v / %v", secs, i+1, r.el, r.err)
 		}
 		if polls > 0 {
 			pending++
 		}
 	}
-	return Verdict{NonTrivial: pending >= 1, Classes: []string{fmt.Sprintf("waits=%d", len(c.Millis))}}
+	return Verdict{NonTrivial: pending >= 1, Classes: []string{fmt.Sprintf("waits=%d", len(c.Micros))}}
 }
 
 var c10Wait = Register(Prop[c10WaitCase]{
 	ID: "C10", Name: "wait",
 	Gen: func(t *rapid.T) c10WaitCase {
-		pool := []int{0, 1, 5, 20, 30, 50, 80, 120, 250}
+		pool := []int{0, 300, 900, 1500, 2900, 5000, 10900, 20000, 30500, 50000, 80000, 120000, 250000}
 		if tier() == "thorough" {
-			pool = append(pool, 600, 1200, 1500)
+			pool = append(pool, 600000, 1001000, 1200000, 1500000)
 		}
-		return c10WaitCase{Millis: rapid.SliceOfN(rapid.SampledFrom(pool), 1, 3).Draw(t, "millis")}
+		return c10WaitCase{Micros: rapid.SliceOfN(rapid.SampledFrom(pool), 1, 3).Draw(t, "micros")}
 	},
 	Run: runC10Wait,
 })
 
 func TestC10Wait(t *testing.T) { Check(t, c10Wait) }
+
+// ---------------------------------------------------------------------------------------
+// a pending command abandoned by RestoreAt: the next execution of the same statement is a new invocation with
+// its own arguments, and the abandoned one still ran (once) with its own
+
+type c10RestoreCase struct {
+	Shape string `json:"shape"` // void, err, raw, chan
+	Polls int    `json:"polls"` // polls before the restore
+}
+
+func runC10Restore(c c10RestoreCase) Verdict {
+	src := "title: Start\n---\nM0\n<<k {$w} {$n}>>\nM1\n===\n"
+	storer := newRecStorer()
+	storer.vals["w"], storer.vals["n"] = strVal("first"), numVal(1)
+	dr, err := ysgo.NewDialogueRunner(storer, "abc", strings.NewReader(src))
+	if err != nil {
+		return failf("script does not load: %v", err)
+	}
+	var mu sync.Mutex
+	var invoked []string
+	gate := make(chan struct{})
+	defer func() {
+		select {
+		case <-gate:
+		default:
+			close(gate)
+		}
+	}()
+	note := func(s string, n int) {
+		mu.Lock()
+		invoked = append(invoked, fmt.Sprintf("k(%q,%d)", s, n))
+		mu.Unlock()
+	}
+	var regErr error
+	switch c.Shape {
+	case "void":
+		regErr = dr.ConvertAndAddCommand("k", func(s string, n int) { note(s, n); <-gate })
+	case "err":
+		regErr = dr.ConvertAndAddCommand("k", func(s string, n int) error { note(s, n); <-gate; return nil })
+	case "chan":
+		regErr = dr.ConvertAndAddCommand("k", func(s string, n int) chan error {
+			note(s, n)
+			ch := make(chan error, 1)
+			go func() { <-gate; ch <- nil }()
+			return ch
+		})
+	default:
+		dr.AddCommand("k", func(args []*variable.Value) <-chan error {
+			note(*args[0].String, int(*args[1].Number))
+			ch := make(chan error, 1)
+			go func() { <-gate; ch <- nil }()
+			return ch
+		})
+	}
+	if regErr != nil {
+		return failf("registration failed: %v", regErr)
+	}
+	snap := dr.Snapshot()
+	var history []string
+	next := func() (string, *Verdict) {
+		r, ok := timedNext(dr, 10*time.Second)
+		switch {
+		case !ok:
+			v := failf("Next blocks (history %v)", history)
+			return "", &v
+		case r.p != nil:
+			v := failf("Next panicked: %v (history %v)", r.p, history)
+			return "", &v
+		case errors.Is(r.err, ysgo.ErrWaitingForCommandCompletion):
+			history = append(history, "wait")
+		case r.err != nil:
+			history = append(history, "err "+r.err.Error())
+		case r.el == nil:
+			history = append(history, "end")
+		case r.el.Line != nil:
+			history = append(history, "line "+r.el.Line.Text)
+		}
+		return history[len(history)-1], nil
+	}
+	expect := func(want string) *Verdict {
+		got, v := next()
+		if v != nil {
+			return v
+		}
+		if got != want {
+			f := failf("expected %q, got %q (history %v, handler invocations %v)", want, got, history, invoked)
+			return &f
+		}
+		return nil
+	}
+	if v := expect("line M0"); v != nil {
+		return *v
+	}
+	for p := 0; p <= c.Polls; p++ { // the starting call and the polls: all waiting
+		if v := expect("wait"); v != nil {
+			return *v
+		}
+	}
+	// the host abandons the run: restore the start, other variable values
+	if err := dr.RestoreAt(snap); err != nil {
+		return failf("RestoreAt failed: %v", err)
+	}
+	storer.SetStringValue("w", "second")
+	storer.SetNumberValue("n", 2)
+	if v := expect("line M0"); v != nil {
+		return *v
+	}
+	if v := expect("wait"); v != nil { // the same statement again: a new, pending invocation
+		return *v
+	}
+	close(gate)
+	for tries := 0; ; tries++ {
+		got, v := next()
+		if v != nil {
+			return *v
+		}
+		if got != "wait" {
+			if got != "line M1" {
+				return failf("after the second invocation completed expected the line M1, got %q (history %v)", got, history)
+			}
+			break
+		}
+		if tries > 5000 {
+			return failf("the released command never completed (history %v)", history)
+		}
+		time.Sleep(200 * time.Microsecond)
+	}
+	// both invocations ran, each exactly once with the arguments of its own execution
+	deadline := time.Now().Add(5 * time.Second)
+	for {
+		mu.Lock()
+		got := strings.Join(invoked, " ")
+		n := len(invoked)
+		mu.Unlock()
+		if n >= 2 || time.Now().After(deadline) {
+			sortedGot := got
+			if got == `k("second",2) k("first",1)` {
+				sortedGot = `k("first",1) k("second",2)`
+			}
+			if sortedGot != `k("first",1) k("second",2)` {
+				return failf("the command statement was executed twice (with w/n = first/1, then second/2); handler invocations: %s", got)
+			}
+			break
+		}
+		time.Sleep(time.Millisecond)
+	}
+	return Verdict{NonTrivial: true, Classes: []string{"shape=" + c.Shape}}
+}
+
+var c10Restore = Register(Prop[c10RestoreCase]{
+	ID: "C10", Name: "restore-while-pending",
+	Gen: func(t *rapid.T) c10RestoreCase {
+		return c10RestoreCase{Shape: rapid.SampledFrom([]string{"void", "err", "raw", "chan"}).Draw(t, "shape"), Polls: rapid.IntRange(0, 3).Draw(t, "polls")}
+	},
+	Run: runC10Restore,
+})
+
+func TestC10RestoreWhilePending(t *testing.T) { Check(t, c10Restore) }
